@@ -53,7 +53,11 @@ pub struct ZoneCase {
 }
 
 pub fn owner_of(case: &ZoneCase, a: &AddOp) -> MName {
-    let base = if a.outside {
+    let base = if a.outside && a.rel.len() % 2 == 1 && !case.apex.labels.is_empty() {
+        // an out-of-zone owner whose wire form ENDS with the apex's wire form: the label in
+        // front of the apex's tail contains the length octet and the text of the apex's first label
+        confusable_with(&case.apex, &a.rel)
+    } else if a.outside {
         MName { labels: a.rel.clone() }
     } else {
         let mut labels = a.rel.clone();
@@ -66,6 +70,17 @@ pub fn owner_of(case: &ZoneCase, a: &AddOp) -> MName {
     } else {
         case.apex.clone()
     }
+}
+
+/// `front` labels, then one label made of 'x', the length octet of the apex's first label and
+/// that label's text, then the rest of the apex: not at or below the apex, same wire tail.
+pub fn confusable_with(apex: &MName, front: &[Vec<u8>]) -> MName {
+    let mut labels: Vec<Vec<u8>> = front.to_vec();
+    let mut l = vec![b'x', apex.labels[0].len() as u8];
+    l.extend_from_slice(&apex.labels[0]);
+    labels.push(l);
+    labels.extend(apex.labels[1..].iter().cloned());
+    MName { labels }
 }
 
 fn rrset_eq(got: &SingleRrset, want: &MRrset) -> bool {
@@ -291,7 +306,11 @@ pub fn oracle_lookup(case: &ZoneCase, st: &mut Stats) -> Verdict {
         outside.push(p.clone());
         outside.push(p.child(b"sibling"));
     }
-    let outside: Vec<MName> = outside.into_iter().filter(|n| !n.at_or_below(&case.apex)).collect();
+    if !case.apex.labels.is_empty() {
+        outside.push(confusable_with(&case.apex, &[]));
+        outside.push(confusable_with(&case.apex, &[b"www".to_vec()]));
+    }
+    let outside: Vec<MName> = outside.into_iter().filter(|n| n.is_valid() && !n.at_or_below(&case.apex)).collect();
 
     let mut kinds: BTreeSet<&'static str> = BTreeSet::new();
     for (pi, name) in probes.iter().chain(outside.iter()).enumerate() {
